@@ -18,6 +18,22 @@ from typing import Any, Callable, Dict, List, Optional
 from .model import AnalysisError, ClassInfo, FuncInfo, ModuleInfo, Program
 
 
+_SRC_CACHE: Dict[int, str] = {}
+
+
+def _src(node) -> str:
+    """Cached ast.unparse (labels only)."""
+    k = id(node)
+    v = _SRC_CACHE.get(k)
+    if v is None:
+        v = _SRC_CACHE[k] = ast.unparse(node)
+        _SRC_KEEP.append(node)
+    return v
+
+
+_SRC_KEEP: list = []
+
+
 # ----------------------------------------------------------------------------- values
 class AbsVal:
     """Base of driver-supplied domain values.  Methods return NotImplemented to fall back."""
@@ -242,12 +258,14 @@ class Ctx:
         return c
 
 
-def explore(run: Callable[[Ctx], Any], max_paths: int = 200000):
-    """Runs ``run`` once per decision tape until all alternatives are explored."""
-    tapes = [[]]
+def explore(run: Callable[[Ctx], Any], max_paths: int = 200000, fifo: bool = False):
+    """Runs ``run`` once per decision tape until all alternatives are explored (depth-first, or
+    shortest tape first when ``fifo``)."""
+    import collections as _c
+    tapes = _c.deque([[]])
     out = []
     while tapes:
-        t = tapes.pop()
+        t = tapes.popleft() if fifo else tapes.pop()
         ctx = Ctx(t)
         res = run(ctx)
         out.append((ctx, res))
@@ -294,6 +312,7 @@ class Interp:
         self._bool_memo: Dict[Any, bool] = {}
         self.effects: List[tuple] = []
         self.unknown_loop_iters = (0, 1, 2)
+        self.cur_call_node = None
 
     # -------------------------------------------------------------- utilities
     @property
@@ -339,7 +358,7 @@ class Interp:
     def ev(self, e: ast.expr):
         m = getattr(self, "ev_" + type(e).__name__, None)
         if m is None:
-            raise Unsupported(f"expression {type(e).__name__}: {ast.unparse(e)[:60]}")
+            raise Unsupported(f"expression {type(e).__name__}: {_src(e)[:60]}")
         return m(e)
 
     def ev_Constant(self, e):
@@ -463,7 +482,7 @@ class Interp:
     def ev_UnaryOp(self, e):
         v = self.ev(e.operand)
         if isinstance(e.op, ast.Not):
-            return not self.truth(v, ast.unparse(e.operand))
+            return not self.truth(v, _src(e.operand))
         if isinstance(e.op, ast.USub):
             if isinstance(v, (int, float)) and not isinstance(v, bool):
                 return -v
@@ -478,18 +497,18 @@ class Interp:
             v = True
             for x in e.values:
                 v = self.ev(x)
-                if not self.truth(v, ast.unparse(x)):
+                if not self.truth(v, _src(x)):
                     return v
             return v
         v = False
         for x in e.values:
             v = self.ev(x)
-            if self.truth(v, ast.unparse(x)):
+            if self.truth(v, _src(x)):
                 return v
         return v
 
     def ev_IfExp(self, e):
-        return self.ev(e.body) if self.truth(self.ev(e.test), ast.unparse(e.test)) else self.ev(e.orelse)
+        return self.ev(e.body) if self.truth(self.ev(e.test), _src(e.test)) else self.ev(e.orelse)
 
     def ev_NamedExpr(self, e):
         v = self.ev(e.value)
@@ -533,13 +552,13 @@ class Interp:
             r = self.hooks.binop(self, op, a, b)
             if r is not NotImplemented:
                 return r
-        return Unknown(f"binop:{ast.unparse(node)[:40] if node is not None else type(op).__name__}")
+        return Unknown(f"binop:{_src(node)[:40] if node is not None else type(op).__name__}")
 
     def ev_Compare(self, e):
         left = self.ev(e.left)
         for op, r in zip(e.ops, e.comparators):
             right = self.ev(r)
-            if not self.compare(op, left, right, ast.unparse(e)):
+            if not self.compare(op, left, right, _src(e)):
                 return False
             left = right
         return True
@@ -761,7 +780,7 @@ class Interp:
             r = self.hooks.slice(self, v, lo, hi, st, node)
             if r is not NotImplemented:
                 return r
-        return Unknown(f"slice:{ast.unparse(node)[:40] if node is not None else ''}")
+        return Unknown(f"slice:{_src(node)[:40] if node is not None else ''}")
 
     def do_index(self, v, idx, node=None):
         if isinstance(v, AbsVal) and not isinstance(v, (AList, ADict, Unknown)):
@@ -834,9 +853,9 @@ class Interp:
                     out.append(produce())
                     return
                 g = gens[i]
-                for v in self.iterate(self.ev(g.iter), ast.unparse(g.iter)):
+                for v in self.iterate(self.ev(g.iter), _src(g.iter)):
                     self.assign(g.target, v)
-                    if all(self.truth(self.ev(c), ast.unparse(c)) for c in g.ifs):
+                    if all(self.truth(self.ev(c), _src(c)) for c in g.ifs):
                         rec(i + 1)
             rec(0)
         finally:
@@ -879,13 +898,14 @@ class Interp:
     # -------------------------------------------------------------- calls
     def ev_Call(self, e):
         # intrinsic by source text of the callee (e.g. "self._next_mark")
-        src = ast.unparse(e.func)
+        src = _src(e.func)
         if src in self.intr and callable(self.intr[src]):
             return self.intr[src](self, e)
         if isinstance(e.func, ast.Name) and e.func.id == "super" and not e.args:
             return SuperProxy(self.frame.lookup("self")[1] if self.frame.lookup("self")[0] else self.frame.lookup("cls")[1], self.frame.cls)
         fn = self.ev(e.func)
         args, kwargs = self.ev_args(e)
+        self.cur_call_node = e
         return self.call_value(fn, args, kwargs, e)
 
     def ev_args(self, e: ast.Call):
@@ -959,7 +979,7 @@ class Interp:
                 obj.attrs[name] = kwargs[name]
             elif default is not None:
                 d = default
-                if isinstance(d, ast.Call) and ast.unparse(d.func).split(".")[-1] == "field":
+                if isinstance(d, ast.Call) and _src(d.func).split(".")[-1] == "field":
                     kw = {k.arg: k.value for k in d.keywords}
                     if "default_factory" in kw:
                         fac = self.ev_in_module(c.module, kw["default_factory"])
@@ -1151,7 +1171,7 @@ class Interp:
         self.ev(s.value)
 
     def st_If(self, s):
-        if self.truth(self.ev(s.test), ast.unparse(s.test)):
+        if self.truth(self.ev(s.test), _src(s.test)):
             self.run(s.body)
         else:
             self.run(s.orelse)
@@ -1214,7 +1234,7 @@ class Interp:
                 raise Unsupported("del target")
 
     def st_Assert(self, s):
-        if not self.truth(self.ev(s.test), ast.unparse(s.test)):
+        if not self.truth(self.ev(s.test), _src(s.test)):
             raise Raised(ExcVal("AssertionError", []), s)
 
     def st_FunctionDef(self, s):
@@ -1292,11 +1312,11 @@ class Interp:
         for item in s.items:
             v = self.ev(item.context_expr)
             if item.optional_vars is not None:
-                self.assign(item.optional_vars, Unknown(f"with:{ast.unparse(item.context_expr)[:30]}") if isinstance(v, Unknown) else v)
+                self.assign(item.optional_vars, Unknown(f"with:{_src(item.context_expr)[:30]}") if isinstance(v, Unknown) else v)
         self.run(s.body)
 
     def st_For(self, s):
-        items = self.iterate(self.ev(s.iter), ast.unparse(s.iter))
+        items = self.iterate(self.ev(s.iter), _src(s.iter))
         broke = False
         for v in items:
             self.assign(s.target, v)
@@ -1313,12 +1333,12 @@ class Interp:
     def st_While(self, s):
         n = 0
         while True:
-            if not self.truth(self.ev(s.test), ast.unparse(s.test)):
+            if not self.truth(self.ev(s.test), _src(s.test)):
                 self.run(s.orelse)
                 return
             n += 1
             if n > self.MAX_LOOP:
-                raise LoopBound(ast.unparse(s.test))
+                raise LoopBound(_src(s.test))
             try:
                 self.run(s.body)
             except Cont:
@@ -1327,9 +1347,15 @@ class Interp:
                 return
 
 
+_LOAD_CACHE: Dict[int, Any] = {}
+
+
 def _as_load(t):
-    t2 = ast.parse(ast.unparse(t), mode="eval").body
-    return t2
+    k = id(t)
+    if k not in _LOAD_CACHE:
+        _LOAD_CACHE[k] = ast.parse(ast.unparse(t), mode="eval").body
+        _SRC_KEEP.append(t)
+    return _LOAD_CACHE[k]
 
 
 # ----------------------------------------------------------------------------- builtins
